@@ -523,7 +523,47 @@ func c14GRPC(c *Ctx, ix *PkgIndex, m otlpMod) {
 			return nil, false
 		}
 		var got []string
-		for x := range g.ReachUnder(env) {
+		seenK := g.ReachUnder(env)
+		// a boolean local that is only ever assigned constants (var always bool; case …: always = true): under this code its
+		// value is the constant the reachable assignments agree on, or its zero value when none is reachable
+		flagVal := func(e ast.Expr) (string, bool) {
+			v, ok := objOf(info, e).(*types.Var)
+			if !ok || v.IsField() {
+				return "", false
+			}
+			if b, isB := v.Type().Underlying().(*types.Basic); !isB || b.Info()&types.IsBoolean == 0 {
+				return "", false
+			}
+			vals := map[string]bool{}
+			allConst := true
+			for _, y := range g.Nodes {
+				as, isAs := y.N.(*ast.AssignStmt)
+				if !isAs || len(as.Lhs) != len(as.Rhs) {
+					continue
+				}
+				for i, l := range as.Lhs {
+					if !sameVar(info, l, v) {
+						continue
+					}
+					tv := info.Types[as.Rhs[i]]
+					if tv.Value == nil {
+						allConst = false
+						continue
+					}
+					if seenK[y] {
+						vals[tv.Value.String()] = true
+					}
+				}
+			}
+			if !allConst || len(vals) > 1 {
+				return "", false
+			}
+			for k := range vals {
+				return k, true
+			}
+			return "false", true
+		}
+		for x := range seenK {
 			rs, ok := x.N.(*ast.ReturnStmt)
 			if !ok {
 				continue
@@ -537,6 +577,9 @@ func c14GRPC(c *Ctx, ix *PkgIndex, m otlpMod) {
 				}
 				if hasInfo[objOf(info, e)] {
 					return "iff-RetryInfo"
+				}
+				if fv, ok := flagVal(e); ok {
+					return fv
 				}
 				if be, isB := e.(*ast.BinaryExpr); isB && depth < 3 && (be.Op == token.LOR || be.Op == token.LAND) {
 					l, r := classify(be.X, depth+1), classify(be.Y, depth+1)
